@@ -225,6 +225,8 @@ func hist(depth int, viaDialer bool) { histTune(depth, viaDialer, 0) }
 // on the dialer or on the socket (which passes them on) - while the dialer is connected, waiting to
 // redial or closed.  A redial is still always scheduled, never sooner than the smallest reconnect
 // time ever set, traffic resumes, nothing happens after Close.
+func HistTune(depth int, viaDialer bool, tune int) { histTune(depth, viaDialer, tune) }
+
 func histTune(depth int, viaDialer bool, tune int) {
 	w := &world{c: cfgs[kit.ChooseFree(len(cfgs))], tune: tune}
 	s, err := xpub.NewSocket()
